@@ -1,4 +1,5 @@
 import ActixModel.Proofs.DispBounds
+import ActixModel.Proofs.DispBoundsW
 /-
 C05 — HTTP/1 per-connection memory is bounded by configuration, not by the peer.
 
@@ -39,6 +40,16 @@ theorem C05_read_guard (cfg : Cfg) (s s' : S) (k : Nat) (h : step cfg s (.read k
 
 example : ∃ s', step { wbs := 1, readCap := 8192, minHead := 14 } init (.read 8192) = some s' :=
   ⟨_, rfl⟩
+
+/-- the bound is attained (it is the maximum, not merely an upper estimate): 127 reads of 1024
+bytes and one of 1023 leave the buffer one byte below the limit, so one more full read is taken -/
+theorem witness_readbuf_bound_tight :
+    ∃ s, run { wbs := 1, readCap := 1024, minHead := 14 } init
+        (List.replicate 127 (.read 1024) ++ [.read 1023, .read 1024]) = some s ∧
+      s.rb = h1MaxBufferSize - 1 + 1024 := by
+  refine ⟨{ init with rb := 132095 }, ?_, ?_⟩
+  · decide
+  · decide
 
 /-- **C05_partial_head_refused**: whenever the decoder reports a partial head while the buffer
 holds `MAX_BUFFER_SIZE` bytes or more, the only thing the machine can do with that answer is
@@ -129,6 +140,12 @@ theorem C05_431_only_when_full (cfg : Cfg) (s s' : S) (e : Ev)
     | none => simp [hpl] at h
     | some c => simp only [hpl] at h; cases h; exact absurd rfl h4
 
+/-- the hypotheses of `C05_431_only_when_full` are met by the refusal itself -/
+example : ∃ s', step { wbs := 1, readCap := 1024, minHead := 14 }
+      { init with rb := 131072, inDecode := true } (.dec (.needMore 0)) = some s' ∧
+      s'.n431 ≠ ({ init with rb := 131072, inDecode := true } : S).n431 :=
+  ⟨_, rfl, by decide⟩
+
 /-- READ_DISCONNECT is permanent and the read buffer never grows again: after a refusal
 (431/400/EOF) nothing more is taken from the peer. -/
 theorem C05_nothing_read_after_refusal (cfg : Cfg) (evs : List Ev) (s s' : S)
@@ -199,6 +216,13 @@ theorem C05_nothing_read_after_refusal (cfg : Cfg) (evs : List Ev) (s s' : S)
       obtain ⟨h3, h4⟩ := ih s1 h1 h
       exact ⟨h3, Nat.le_trans h4 h2⟩
 
+/-- a state after a refusal from which a non-empty event list is accepted (the queued 431 is
+popped and written): the read buffer stays where it was -/
+example : ∃ s', run { wbs := 1, readCap := 1024, minHead := 14 }
+      { init with rb := 131072, q := 1, qErr := 1, rdDisc := true, n431 := 1 }
+      [.pop (some 123), .wrote 123] = some s' ∧ s'.rb = 131072 :=
+  ⟨{ init with rb := 131072, rdDisc := true, n431 := 1, ub := 123 }, by decide, rfl⟩
+
 /-! ### 2. request body read ahead of the handler -/
 
 /-- **C05_payload_bound**: the request-body channel never holds more than
@@ -248,6 +272,22 @@ theorem witness_payload_exceeds_limit :
                        inDecode := true }, ⟨40960, false, false⟩, ?_, rfl, rfl, by decide⟩
   decide
 
+/-- the payload bound is attained: the channel is one byte below its limit when a full read
+buffer (`MAX_BUFFER_SIZE - 1 + readCap` bytes of body) is decoded into it -/
+theorem witness_payload_bound_tight :
+    ∃ s c, run { wbs := 1, readCap := 1024, minHead := 14 } init
+        ([.read 60, .enter, .dec (.item 60 true), .dec (.needMore 0)] ++
+         List.replicate 31 (.read 1024) ++ [.read 1023, .enter, .dec (.chunk 0 32767),
+           .dec (.needMore 0)] ++
+         List.replicate 127 (.read 1024) ++ [.read 1023, .read 1024, .enter,
+           .dec (.chunk 0 132095)]) = some s ∧
+      s.pl = some c ∧
+      c.len = payloadMaxBufferSize - 1 + (h1MaxBufferSize - 1 + 1024) := by
+  refine ⟨{ init with st := .svc, pl := some ⟨164862, false, false⟩, codecPl := true,
+                       inDecode := true }, ⟨164862, false, false⟩, ?_, rfl, ?_⟩
+  · decide +kernel
+  · decide
+
 /-! ### 3. queued pipelined requests -/
 
 /-- **C05_queue_bound**: at most
@@ -287,11 +327,14 @@ theorem C05_queue_bound (cfg : Cfg) (hm : 0 < cfg.minHead) (evs : List Ev) (s : 
 
 /-- the number for the transport the code is written for (a read of at most `HW_BUFFER_SIZE`)
 and the shortest head `httparse` accepts (`"A / HTTP/1.1\n\n"`, 14 bytes): 9 963 messages -/
-example : queueMax { wbs := 32768, readCap := h1HwBufferSize, minHead := 14 } = 9963 := by decide
+example (h1 : h1MaxBufferSize = 131072) (h2 : h1HwBufferSize = 8192) (h3 : h1MaxPipelined = 16) :
+    queueMax { wbs := 32768, readCap := h1HwBufferSize, minHead := 14 } = 9963 := by
+  simp [queueMax, readBufMax, h1, h2, h3]
 
 /-- … and for a transport that fills whatever `BytesMut` offers (observed: 131 073): 18 740 -/
-example : queueMax { wbs := 32768, readCap := h1MaxBufferSize + 1, minHead := 14 } = 18740 := by
-  decide
+example (h1 : h1MaxBufferSize = 131072) (h3 : h1MaxPipelined = 16) :
+    queueMax { wbs := 32768, readCap := h1MaxBufferSize + 1, minHead := 14 } = 18740 := by
+  simp [queueMax, readBufMax, h1, h3]
 
 /-- the decode loop is entered only below `MAX_PIPELINED_MESSAGES` -/
 theorem C05_decode_needs_queue_room (cfg : Cfg) (s s' : S) (he : step cfg s .enter = some s') :
@@ -303,6 +346,9 @@ theorem C05_decode_needs_queue_room (cfg : Cfg) (s s' : S) (he : step cfg s .ent
     simp only [Bool.or_eq_true, decide_eq_true_eq, not_or, Bool.not_eq_true, Nat.not_le] at hg
     exact hg.1.2
 
+example : ∃ s', step { wbs := 1, readCap := 1024, minHead := 14 } { init with q := 15 } .enter = some s' :=
+  ⟨_, rfl⟩
+
 /-- `MAX_PIPELINED_MESSAGES` itself is not a bound: one read of 1024 bytes holding 19 requests of
 18 bytes queues 18 of them behind the one in service -/
 theorem witness_queue_exceeds_max_pipelined :
@@ -310,6 +356,58 @@ theorem witness_queue_exceeds_max_pipelined :
         ([.read 1024, .enter] ++ List.replicate 19 (.dec (.item 18 false))) = some s ∧
       h1MaxPipelined < s.q := by
   refine ⟨{ init with rb := 682, q := 18, st := .svc, inDecode := true }, ?_, ?_⟩
+  · decide
+  · decide
+
+/-! ### 3b. everything taken from the socket and not yet handed to a handler -/
+
+/-- **C05_total_readahead_bound**: in the weighted machine (`Model/DispBoundsW.lean`) the input
+bytes held anywhere ahead of the handlers — read buffer, heads and buffered bodies of all queued
+pipelined requests, body channel of the request in service — never exceed
+
+  `R + (15 · (R + P) + R) + P`,   `R = MAX_BUFFER_SIZE - 1 + readCap`, `P = 32 768 - 1 + R`
+
+(15 full requests queued when the decode loop was last entered, one read buffer decoded by that
+loop, one unparsed read buffer, one full channel): a constant of the configuration, about 5.1 MB
+for `readCap = HW_BUFFER_SIZE` — not the 160 kB the two `MAX_BUFFER_SIZE` constants suggest. -/
+theorem C05_total_readahead_bound (cfg : Cfg) (evs : List Ev) (x : SW)
+    (h : runW cfg initW evs = some x) : heldInput x ≤ heldMax cfg := by
+  have hi := invW_run evs initW x (invW_init cfg) h
+  have hrb := hi.base.rb
+  have hcur := hi.curb
+  have htail := hi.tail
+  have hq : queuedBytes x.ws ≤ (h1MaxPipelined - 1) * msgMax cfg + tailSum (h1MaxPipelined - 1) x.ws := by
+    apply queued_le
+    intro p hp
+    have := hi.all p hp
+    simp only [weight, msgMax]
+    omega
+  have : tailSum (h1MaxPipelined - 1) x.ws ≤ readBufMax cfg := by
+    have : 0 ≤ (if x.s.inDecode then x.s.rb else 0) := Nat.zero_le _
+    omega
+  simp only [heldInput, heldMax]
+  omega
+
+/-- every run of the weighted machine is a run of the plain one, so all theorems above apply to
+its `s` component -/
+theorem C05_weighted_refines (cfg : Cfg) (evs : List Ev) (x : SW)
+    (h : runW cfg initW evs = some x) : run cfg init evs = some x.s :=
+  runW_run evs initW x h
+
+/-- the number for HW-sized reads -/
+example (h1 : h1MaxBufferSize = 131072) (h2 : h1HwBufferSize = 8192) (h3 : h1MaxPipelined = 16)
+    (h4 : payloadMaxBufferSize = 32768) :
+    heldMax { wbs := 32768, readCap := h1HwBufferSize, minHead := 14 } = 5119951 := by
+  simp [heldMax, msgMax, payloadMax, readBufMax, h1, h2, h3, h4]
+
+/-- a non-trivial weighted run: one request in service, two queued (the second with 100 buffered
+body bytes), 7 unparsed bytes -/
+example : ∃ x, runW { wbs := 1, readCap := 1024, minHead := 14 } initW
+      [.read 200, .enter, .dec (.item 18 false), .dec (.item 20 false), .dec (.item 55 true),
+       .dec (.chunk 0 100), .dec (.needMore 0)] = some x ∧ heldInput x = 182 := by
+  refine ⟨{ s := { init with rb := 7, q := 2, st := .svc, pl := some ⟨100, true, false⟩,
+                               codecPl := true },
+            ws := [(20, 0), (55, 100)], cur := 0 }, ?_, ?_⟩
   · decide
   · decide
 
@@ -417,6 +515,9 @@ theorem C05_chunk_guard (cfg : Cfg) (s s' : S) (enc : Nat)
     simp only [Bool.or_eq_true, decide_eq_true_eq, not_or, Nat.not_le] at hg
     cases h
     exact ⟨hg.2, rfl⟩
+
+example : ∃ s', step { wbs := 90, readCap := 1024, minHead := 14 }
+      { init with wb := 89, st := .send } (.bodyChunk 1006) = some s' ∧ s'.wb = 1095 := ⟨_, rfl, rfl⟩
 
 /-- every response has a body, heads and error heads are at most `H` bytes -/
 def HeadOk (H : Nat) : Ev → Prop
